@@ -138,7 +138,7 @@ namespace vm {
 template <class Alg> void run_job(const Plan &p, const std::vector<EventData> &evs) {
   trees().reset();
   edm::vm_consumes::get().decl.clear();
-  out() << "JOB " << p.job << " " << p.tag << "\n";
+  out() << "JOB " << p.job << " " << p.tag << "\n"; out().flush();
   std::unique_ptr<Alg> alg;
   try {
     edm::ParameterSet ps;
@@ -149,7 +149,7 @@ template <class Alg> void run_job(const Plan &p, const std::vector<EventData> &e
   edm::Event ev; edm::EventSetup es;
   for (int ei : p.events) {
     store().set(&evs.at(ei));
-    out() << "BEGIN " << ei << "\n";
+    out() << "BEGIN " << ei << "\n"; out().flush();
     try {
       alg->vm_do_event(ev, es);
       out() << "END ok\n";
